@@ -32,7 +32,9 @@ class EvenAsphere(NewtonRaphsonGeometry):
     def __init__(self, coordinate_system, radius, conic=0.0,
                  tol=1e-10, max_iter=100, coefficients=[]):
         super().__init__(coordinate_system, radius, conic, tol, max_iter)
-        self.c = coefficients
+        # own copy, as floats: the caller's list may be shared with other
+        # surfaces, and integer entries would truncate later edits
+        self.c = [float(coefficient) for coefficient in coefficients]
         self.is_symmetric = True
 
     def sag(self, x=0, y=0):
